@@ -115,6 +115,12 @@ def main(tier):
             ff.update({k: b64(v) for k, v in files.items()})
             cases.append({"id": cid, "files": ff, "root": "main.jst", "outside": ["outside/canary.jst"]})
             meta[cid] = ("t%d" % n if nm == "same_file_twice" else "b%d" % n, nm, m, main_text, files)
+            # the same project opened through other spellings of the root path
+            if n % 3 == 0:
+                for k, spelling in enumerate(["./main.jst", ".//main.jst", "sub/../main.jst" if any(x.startswith("sub/") for x in files) else "././main.jst"]):
+                    rid = cid + "_root%d" % k
+                    cases.append({"id": rid, "files": ff, "root": "main.jst", "rawroot": spelling})
+                    meta[rid] = ("t%d" % n if nm == "same_file_twice" else "b%d" % n, nm + ":root=" + spelling, m, main_text, files)
         if n % (1 if tier == "thorough" else 10) == 0:
             for nm, main_blocks, files, dirs, noread in reject_cases(d):
                 if nm == "unreadable" and os.geteuid() == 0:
